@@ -301,11 +301,24 @@ Proof.
 Qed.
 Lemma unmarshal_element_sc sch name root : unmarshal_element sch name (sc root) = unmarshal_element sch name root.
 Proof. unfold unmarshal_element. rewrite view_sc, height_sc. reflexivity. Qed.
+(* the same for etree's default write settings (goxmldsig's re-serialisation of the Signature element) *)
+Lemma view_original_sc : forall n ns, view_original ns (sc n) = view_original ns n.
+Proof.
+  fix IH 1. intros [s t a k| | | | ] ns; try reflexivity.
+  rewrite strip_comments_elem. cbn [view_original]. f_equal. f_equal.
+  induction k as [|x r IHr]; [reflexivity|].
+  destruct (is_comment x) eqn:C.
+  - rewrite sck_cons_comment by exact C. rewrite IHr. destruct x; try discriminate; reflexivity.
+  - rewrite sck_cons_keep by exact C. cbn [flat_map]. rewrite IH, IHr. reflexivity.
+Qed.
+Lemma unmarshal_element_original_sc sch name root :
+  unmarshal_element_original sch name (sc root) = unmarshal_element_original sch name root.
+Proof. unfold unmarshal_element_original. rewrite view_original_sc, height_sc. reflexivity. Qed.
 
 Lemma unmarshal_signature_sc ctx el : unmarshal_signature ctx (sc el) = unmarshal_signature ctx el.
 Proof.
   unfold unmarshal_signature. rewrite detach_sc. destruct (detach ctx el) as [d|e]; [|reflexivity]. cbn [rmap relabel bind].
-  rewrite unmarshal_element_sc. reflexivity.
+  rewrite unmarshal_element_original_sc. reflexivity.
 Qed.
 
 (* ---- 1.3 findSignature on the stripped tree: same visits, same budget, the stripped tree left behind, the same
